@@ -404,6 +404,8 @@ def method(interp, obj, name, args, kwargs, frame):
     raise unsupported(f'set.{name}')
   if isinstance(obj, SBits) and name == 'value':
     return obj
+  if isinstance(obj, (I.SSlice, slice)) and name == 'indices':
+    return slice_indices(interp, obj, args[0])
   raise unsupported(f'method {name} on {obj!r}')
 
 
@@ -639,6 +641,8 @@ def call_builtin_type(interp, fn, args, kwargs, frame):
     if not args:
       return fn()
     v = args[0]
+    if isinstance(v, SObj) and isinstance(v.ghost.get('items'), SSeq):
+      v = v.ghost['items']
     if isinstance(v, SSeq):
       c = v.copy()
       c.kind = 'list' if fn is list else 'tuple'
@@ -695,6 +699,13 @@ def call_builtin_type(interp, fn, args, kwargs, frame):
     if len(args) == 2:
       lo, hi = interp.to_z3(args[0]), interp.to_z3(args[1])
       return I.SymIter(lambda it: z3.If(hi > lo, hi - lo, 0), lambda it, i: SInt(lo + i))
+    if len(args) == 3 and is_concrete(args[2]) and args[2] != 0:
+      lo, hi, st = interp.to_z3(args[0]), interp.to_z3(args[1]), args[2]
+      if st > 0:
+        n = z3.If(hi > lo, (hi - lo + (st - 1)) / st, 0)
+      else:
+        n = z3.If(lo > hi, (lo - hi + (-st - 1)) / (-st), 0)
+      return I.SymIter(lambda it: n, lambda it, i: SInt(lo + i * st))
     raise unsupported('range with symbolic step')
   if fn is enumerate:
     it = args[0]
@@ -808,6 +819,8 @@ def class_of(interp, v):
     return v.cls
   if isinstance(v, (Closure, BoundMethod)):
     return types.FunctionType
+  if isinstance(v, _I().SSlice):
+    return slice
   if isinstance(v, SV):
     return None
   return type(v)
@@ -1087,3 +1100,31 @@ def spec_helper(interp, fn, args, kwargs, frame):
       return body
     return SBool(z3.ForAll([j], body))
   raise unsupported(f'spec helper {fn.__name__}')
+
+
+def slice_indices(interp, sl, n):
+  """slice.indices(n) per the language reference (PySlice_AdjustIndices);
+  the step must be concrete (or None)."""
+  _used('slice.indices')
+  step = interp.resolve(sl.step)
+  if step is None:
+    step = 1
+  if not is_concrete(step):
+    raise unsupported('slice.indices with symbolic step')
+  if step == 0:
+    raise pyraise(ValueError, 'slice step cannot be zero')
+  zn = interp.to_z3(n)
+
+  def adj(v, lo, hi, dflt):
+    v = interp.resolve(v)
+    if v is None:
+      return dflt
+    z = interp.to_z3(v)
+    return z3.If(z < 0, z3.If(z + zn < lo, lo, z + zn), z3.If(z > hi, hi, z))
+  if step > 0:
+    start = adj(sl.start, z3.IntVal(0), zn, z3.IntVal(0))
+    stop = adj(sl.stop, z3.IntVal(0), zn, zn)
+  else:
+    start = adj(sl.start, z3.IntVal(-1), zn - 1, zn - 1)
+    stop = adj(sl.stop, z3.IntVal(-1), zn - 1, z3.IntVal(-1))
+  return (simplify_concrete(SInt(z3.simplify(start))), simplify_concrete(SInt(z3.simplify(stop))), step)
